@@ -100,6 +100,33 @@ static void do_release(void)
 	nwin--;
 	emit("Release", 0, 0, off(p), 1);
 }
+/* n whole cycles on an idle queue, checked as they go: every claim returns the buffer after the previous one (cyclically),
+ * the receive returns the buffer that was sent with what was written into it; one event for the lot */
+static void do_cycles(unsigned long long n)
+{
+	int ok = nwin == 0;
+	char *expect = NULL;
+	for (unsigned long long k = 0; k < n && ok; k++) {
+		char *p = messageq_claim(mq);
+		if (!p || p < store || p + msglen > store + (size_t)depth * msglen || (expect && p != expect)) { ok = 0; break; }
+		p[msglen - 1] = (char)(k >> 3); p[0] = (char)k;
+		messageq_send(mq, p);
+		char *q = messageq_receive(mq);
+		if (q != p || q[0] != (char)k || (msglen > 1 && q[msglen - 1] != (char)(k >> 3))) { ok = 0; break; }
+		messageq_release(mq, q);
+		expect = p + msglen >= store + (size_t)depth * msglen ? store : p + msglen;
+	}
+	printf("{\"e\":\"Cycles\",\"a\":[%llu,%llu],\"r\":0,\"ok\":%d}\n", n & 0xffff, n >> 16, ok && slack_ok());
+}
+static void systematic(void);
+/* a queue that has been in service for a long time: k cycles, then the systematic history */
+static void longrun(int d, int m, unsigned long long n)
+{
+	reset(d, m, 0, (int)(n & 1));
+	do_claim(); do_send(1); do_receive(); do_release();
+	do_cycles(n);
+	systematic();
+}
 static void do_empty(void) { emit("Empty", 0, 0, messageq_empty(mq), 1); }
 
 static int first_claimed(int from_end)
@@ -237,6 +264,11 @@ int main(void)
 		else if (drv_is(&c, "Receive")) do_receive();
 		else if (drv_is(&c, "Release")) do_release();
 		else if (drv_is(&c, "Empty")) do_empty();
+		else if (drv_is(&c, "Long")) {
+			/* Long log2 : 2^log2 + {0, 1, 5} cycles on depths that do not divide a power of two */
+			unsigned long long base = 1ull << drv_arg(&c, 0);
+			longrun(3, 4, base); longrun(3, 1, base + 1); longrun(7, 12, base + 5); longrun(5, 8, base - 1);
+		}
 		else if (drv_is(&c, "Gen")) gen(drv_arg(&c, 0), drv_arg(&c, 1), drv_arg(&c, 2), drv_arg(&c, 3));
 		else { fprintf(stderr, "mqseq_drv: unknown command %s\n", c.tok[0]); return 3; }
 	}
